@@ -922,6 +922,45 @@ impl WorldA {
                     self.deliver_bytes(i, d, &b, false, obs);
                 }
             }
+            K_FORGESLICE => {
+                // a hostile peer that plays by the slicing rules: well-formed slices of consistent sliced messages (ids just above
+                // the delivery cursor), many open at once, completed in any order with last slices of any legal length
+                let i = op.a as usize % ncl;
+                let d = (op.b % 2) as usize;
+                let n = self.nchan(i, d);
+                if n == 0 {
+                    return;
+                }
+                let ch = (op.c % 7) as usize % n;
+                let c = &self.conns[i].st[d][ch];
+                let cid = c.cfg.id;
+                let reliable = c.reliable();
+                let base = c.base_id + c.msgs.len() as u64; // above everything the honest side of this link ever used
+                let mid = base + (op.c / 7) % 24;
+                let nsl = 2 + ((op.c / 168) % 3) as usize;
+                let idx = ((op.c / 504) % nsl as u64) as usize;
+                let last_len = match op.d % 5 {
+                    0 => 1,
+                    1 => 600,
+                    2 => 1199,
+                    _ => 1200,
+                };
+                let plen = if idx == nsl - 1 { last_len } else { SLICE };
+                let payload = vec![0xEEu8; plen];
+                let slice = Slice { message_id: mid, slice_index: idx, num_slices: nsl, payload: payload.into() };
+                let pkt = if reliable {
+                    Packet::ReliableSlice { sequence: 1_000_000 + op.d % 100_000, channel_id: cid, slice }
+                } else {
+                    Packet::UnreliableSlice { sequence: 1_000_000 + op.d % 100_000, channel_id: cid, slice }
+                };
+                let mut buf = [0u8; 1500];
+                let mut o = super::model::octets_shim::OctetsMut::with_slice(&mut buf);
+                if let Ok(len) = pkt.to_bytes(&mut o) {
+                    obs.count("fault.forge_consistent_slice");
+                    let b = buf[..len].to_vec();
+                    self.deliver_bytes(i, d, &b, false, obs);
+                }
+            }
             K_API => {
                 let i = op.b as usize % ncl;
                 self.track_sv_reasons();
